@@ -167,7 +167,7 @@ func execList(cn *conn, cases []*listCase) []outcome {
 		if cmdErr != nil && i == len(cases)-1 {
 			e = cmdErr
 		}
-		outs[i] = compare("list", exp.l, dl.l, e, extra)
+		outs[i] = cn.compare("list", exp.l, dl.l, e, extra)
 	}
 	if cmdErr == nil && len(got) > pos {
 		var f flat
@@ -375,7 +375,7 @@ func buildMiscFamilies(thorough bool) {
 				printStatusUnrequested(&dl, "status", got, o)
 			}
 			cn.failed(err)
-			return compare("status", exp.l, dl.l, err, nil)
+			return cn.compare("status", exp.l, dl.l, err, nil)
 		}
 		desc := func(i int) string {
 			sp := specs[i]
@@ -453,7 +453,7 @@ func buildMiscFamilies(thorough bool) {
 				printSelect(&dl, "select", got, false)
 			}
 			cn.failed(err)
-			return compare("select", exp.l, dl.l, err, nil)
+			return cn.compare("select", exp.l, dl.l, err, nil)
 		}
 		desc := func(i int) string {
 			sp := specs[i]
@@ -562,7 +562,7 @@ func buildMiscFamilies(thorough bool) {
 				printSearch(&dl, "search", got)
 			}
 			cn.failed(err)
-			return compare("search", exp.l, dl.l, err, nil)
+			return cn.compare("search", exp.l, dl.l, err, nil)
 		}
 		desc := func(i int) string {
 			sp := specs[i]
@@ -627,7 +627,7 @@ func buildMiscFamilies(thorough bool) {
 				dl.n("append.uid", got.UID)
 			}
 			cn.failed(err)
-			return compare("append", exp.l, dl.l, err, nil)
+			return cn.compare("append", exp.l, dl.l, err, nil)
 		}
 		desc := func(i int) string {
 			sp := specs[i]
@@ -698,7 +698,7 @@ func buildMiscFamilies(thorough bool) {
 				printCopy(&dl, "copy", got.UIDValidity, got.SourceUIDs, got.DestUIDs)
 			}
 			cn.failed(err)
-			return compare("copy", exp.l, dl.l, err, nil)
+			return cn.compare("copy", exp.l, dl.l, err, nil)
 		}
 		desc := func(i int) string {
 			c := "COPY"
@@ -796,7 +796,7 @@ func buildMiscFamilies(thorough bool) {
 			if writeErr != nil {
 				extra["writer_error"] = writeErr.Error()
 			}
-			return compare("move", exp.l, dl.l, err, extra)
+			return cn.compare("move", exp.l, dl.l, err, extra)
 		}
 		desc := func(i int) string {
 			sp := specs[i]
@@ -877,7 +877,7 @@ func buildMiscFamilies(thorough bool) {
 				pr(&dl, got)
 			}
 			cn.failed(err)
-			return compare("namespace", exp.l, dl.l, err, nil)
+			return cn.compare("namespace", exp.l, dl.l, err, nil)
 		}
 		desc := func(i int) string {
 			var f flat
@@ -940,7 +940,7 @@ func buildMiscFamilies(thorough bool) {
 			if writeErr != nil {
 				extra["writer_error"] = writeErr.Error()
 			}
-			return compare("expunge", exp.l, dl.l, err, extra)
+			return cn.compare("expunge", exp.l, dl.l, err, extra)
 		}
 		desc := func(i int) string {
 			c := "EXPUNGE"
@@ -972,7 +972,7 @@ func buildMiscFamilies(thorough bool) {
 		}
 		maxLen := 2
 		if thorough {
-			maxLen = 3
+			maxLen = 4
 		}
 		var seqs [][]int
 		var rec func(cur []int)
@@ -1120,7 +1120,7 @@ func buildMiscFamilies(thorough bool) {
 			if writeErr != nil {
 				extra["writer_error"] = writeErr.Error()
 			}
-			return compare("unilateral", exp.l, dl.l, err, extra)
+			return cn.compare("unilateral", exp.l, dl.l, err, extra)
 		}
 		desc := func(i int) string {
 			var l []string
@@ -1242,7 +1242,7 @@ func buildCapabilityFamily(thorough bool) {
 		c := imapclient.New(p.ClientConn(), nil)
 		defer c.Close()
 		var exp, dl flat
-		fail := func(err error) outcome { return compare("capability", exp.l, dl.l, err, nil) }
+		fail := func(err error) outcome { return cn.compare("capability", exp.l, dl.l, err, nil) }
 		if err := c.WaitGreeting(); err != nil {
 			return fail(err)
 		}
@@ -1274,7 +1274,7 @@ func buildCapabilityFamily(thorough bool) {
 				dl.s("capability.configured."+string(cc), fmt.Sprint(cmdCaps.Has(cc)))
 			}
 		}
-		return compare("capability", exp.l, dl.l, nil, nil)
+		return cn.compare("capability", exp.l, dl.l, nil, nil)
 	}
 	desc := func(i int) string {
 		var l []string
